@@ -860,8 +860,30 @@ impl<'a> Run<'a> {
     }
 
     fn compare_pools(&mut self, ctx_: &str) -> Verdict {
-        let a = pool_render(&self.p.t)?;
-        let r = pool_render(&self.p.r)?;
+        let mut a = pool_render(&self.p.t)?;
+        let mut r = pool_render(&self.p.r)?;
+        // Transactions parked in the conflicts cache are re-verified and re-submitted by a spawned
+        // task and the verify-queue workers ("recover back") some time after the operation that
+        // freed their inputs has returned: the two pools converge asynchronously.  A difference is
+        // judged only once both verify queues are empty and the answer has stopped changing.
+        if a != r {
+            let start = Instant::now();
+            let mut stable = 0;
+            while start.elapsed() < Duration::from_secs(5) && stable < 3 {
+                std::thread::sleep(Duration::from_millis(20));
+                let idle = [&self.p.t, &self.p.r].iter().all(|n| {
+                    n.shared.tx_pool_controller().verif_dump().map(|d| d.verify_queue_len == 0).unwrap_or(false)
+                });
+                let (a2, r2) = (pool_render(&self.p.t)?, pool_render(&self.p.r)?);
+                if a2 == r2 {
+                    self.st.label("pool:converged-after-asynchronous-recovery");
+                    return Ok(());
+                }
+                stable = if idle && a2 == a && r2 == r { stable + 1 } else { 0 };
+                a = a2;
+                r = r2;
+            }
+        }
         if a != r {
             vfail!(
                 "pool:entries-differ",
